@@ -21,13 +21,18 @@ theorem C19_helpers_thread_spec :
 example : GeneratedC19.sites.length ≥ 40 ∧ (Kind.operand ∈ siteKinds) ∧ (Kind.param ∈ siteKinds) ∧ (Kind.like ∈ siteKinds) := by
   decide
 
-/-- (a') … and the only sites that neither derive the spec from an operand nor forward their own parameter are the two
-self-contained ones, pinned by id. -/
+/-- (a') … and the only sites that neither derive the spec from an operand nor forward their own parameter are among
+the two self-contained ones, pinned by id: `measure_reserved_mem` builds its own `Spec(...)` for a stand-alone
+computation, and the xarray branch of `asarray` re-enters `asarray(a.data)` without forwarding `spec` (listed finding
+`asarray-xarray-unwrap-drops-spec`; the statement stays true if that call is repaired). -/
 theorem C19_non_threaded_sites_pinned :
-    (GeneratedC19.sites.filter (fun p => !(Kind.ofCode p.2).threaded)).map (fun p => (p.1, Kind.ofCode p.2)) =
-      [("cubed/array_api/creation_functions.py:asarray:asarray#1", Kind.selfUnwrap),
-       ("cubed/core/array.py:measure_reserved_mem:ones#1", Kind.fresh)] := by
+    ∀ p ∈ GeneratedC19.sites, (Kind.ofCode p.2).threaded = true ∨
+      (p.1, Kind.ofCode p.2) ∈
+        [("cubed/array_api/creation_functions.py:asarray:asarray#1", Kind.selfUnwrap),
+         ("cubed/core/array.py:measure_reserved_mem:ones#1", Kind.fresh)] := by
   decide
+
+example : ∃ p ∈ GeneratedC19.sites, (Kind.ofCode p.2).threaded = false := by decide
 
 /-- (a'') hence every kind that a helper creation inside an operation can have is threaded. -/
 theorem C19_helper_kinds_threaded : ∀ k ∈ helperKinds, k.threaded = true := by
